@@ -390,8 +390,15 @@ NeverWaits == TRUE   \* structural: TryLock has no waiting state
 PView == <<scn.name, inodes, cur, tmp, lock, lockfile, logfile, pc, sec, snap, pend, outc, rd, crashes, torn>>
 
 Enabled(p) == IF p \in Readers THEN pc[p] # "exit" ELSE pc[p] # "exit"
+\* where inside the line a write(2) is cut short is below the model's grain (Crash(p,
+\* "partial") leaves "a fragment"); the driver realises it at each of these places:
+\* half way (inside a multi-byte character if there is one), after the first byte,
+\* right after the last-but-one closing brace of the first line (what is left looks
+\* like a complete object at its end), right after a quote, and - for a batch -
+\* inside its second line
+CutPoints == {"half", "one", "brace", "quote", "line2"}
 KillsAt(p) == IF p \in Procs /\ crashes < MaxCrashes /\ pc[p] \notin {"exit", "start"}
-                THEN (IF pc[p] = "append" THEN {"kill-between", "kill-partial", "kill-full"}
+                THEN (IF pc[p] = "append" THEN {"kill-between", "kill-full"} \cup {"kill-partial@" \o c : c \in CutPoints}
                       ELSE IF pc[p] = "tmp" THEN {"kill-between", "kill-partial"} ELSE {"kill-between"})
                 ELSE {}
 EmitLine == ToJson([scn |-> scn.name, sched |-> sched,
